@@ -494,7 +494,9 @@ def num_pow(a, b):
         raise Unsupported("power with possibly infinite exponent")
     e.definedness(z3.Or(a.t >= 0, e.is_integer_valued(bl.t)), "fractional power of a negative base (NaN)")
     e.definedness(z3.Or(a.t != 0, bl.t >= 0), "zero to a negative power")
-    return Num(pow_uf()(to_real(a.t), to_real(bl.t)))
+    r = pow_uf()(to_real(a.t), to_real(bl.t))
+    e.axiom(z3.Implies(a.t > 0, r > 0))          # a positive base has a positive power
+    return Num(r)
 
 
 def ite(c, x, y):
